@@ -59,7 +59,7 @@ type Run struct {
 	stats   map[string]int
 	keySeen map[string]int
 
-	cache   map[string]any
+	cache map[string]any
 
 	ssaProg *ssa.Program
 	ssaPkgs map[string]*ssa.Package
